@@ -119,7 +119,7 @@ def hll_like(pid, tier, seed, check, record_cmd, mcs, gens, module="Trace_Hll", 
         args.update(extra_args)
     rec = vh(vhbin, record_cmd, args)
     paths = [work(pid, "tr.%d.ndjson" % i) for i in range(shards)]
-    cfg = trace_cfg(pid, family, consts or HLL_CONSTS, check)
+    cfg = trace_cfg(pid, family, (HLL_CONSTS if consts is None else consts), check)
     ev, rej, st = validate_shards(module, cfg, paths, jobs=shards)
     viol, hits = classify(pid, rej, module, cfg)
     cov = {"states": sum(m["states"] for m in mc) + sum(g["states"] for g in gen) + st,
@@ -191,3 +191,17 @@ def C07(tier, seed):
                   "merges; Trace: uniform/skewed/all-distinct/bimodal weighted streams on maps 8..128 (2048 thorough) with clustered home slots, "
                   "purge-to-empty then merge/serialize, merge trees of 2..5 sketches of equal and different sizes with round trips; every item of "
                   "the alphabet is queried at every checkpoint")
+
+
+# --------------------------------------------------------------------------- Count-Min
+def C08(tier, seed):
+    hll_like("C08", tier, seed, ["C08"], "cm-record", [("MC_CountMin", "MC_CountMin.cfg")], None,
+             module="Trace_CountMin", family="CountMin", consts="CONSTANTS ",
+             assumptions=["bucket indices are derived by harness/src/refhash.rs (per-row seed = murmur3(row as u64 LE, sketch seed).h1; bucket = h1 mod num_buckets)",
+                          "the table is read from serialize() (16-byte preamble, total, then 8-byte little-endian counters)",
+                          "decay factors are used only when trunc(c * f64(num/den)) = floor(c*num/den) for every reachable count (checked by the harness), "
+                          "so the specification's rational semantics is the documented formula",
+                          "the clause on the fraction of items above truth + relative_error*total (a probabilistic statement) is not decided"],
+             rule="MC: two 2x3 sketches, 4 items with colliding buckets, weights 0..2, all update/merge/halve/decay(1/2,2/3) sequences; "
+                  "Trace: num_hashes 1..8 x num_buckets 3..512 x seeds {9001,0,2^63+..,42} x all eight counter types (weights within range), "
+                  "random update/merge/halve/decay/round-trip histories, whole table and every item's estimate at checkpoints, never-seen items too")
